@@ -1,6 +1,8 @@
 (* Model/Source.v — the part of stack/source.go that Model/Augment.v takes as
-   given: lineToByteOffsets (source.go:95), parsedFile.getFuncAST (:116),
-   name (:159), fieldToType (:179), extractArgumentsType (:212).
+   given: lineToByteOffsets, parsedFile.getFuncAST, matchFuncDecl (commit
+   12f3b86: the declaration found by the walk is kept only if it declares the
+   function the frame names), name, fieldToType, extractArgumentsType (commit
+   4cb43b4: no panic on a receiver list that does not have one field).
 
    go/parser itself is not modelled.  What is modelled is everything the code
    DOES with the parser's output: ast.Inspect is a pre-order walk whose closure
@@ -32,8 +34,10 @@ Inductive texpr : Type :=
 | TMap (k v : texpr)                           (* *ast.MapType *)
 | TChan (v : texpr)                            (* *ast.ChanType (direction ignored) *)
 | TBasicLit (value : bytes)                    (* *ast.BasicLit *)
-| TOther.                                      (* anything else: struct types, index expressions (generic
-                                                  instantiations), parenthesised types, binary expressions, nil *)
+| TIndex (x : texpr)                           (* *ast.IndexExpr / *ast.IndexListExpr (generic instantiation
+                                                  T[K], T[K, V]): only X is read, by matchFuncDecl *)
+| TOther.                                      (* anything else: struct types, parenthesised types, binary
+                                                  expressions, nil *)
 
 (* *ast.Field: only len(Names) and Type are read *)
 Record field := mkField { f_names : nat; f_type : texpr }.
@@ -108,19 +112,80 @@ Inductive ast_result :=
 | AstNone                                  (* d == nil, err == nil *)
 | AstFound (pos : N) (d : funcdecl).
 
-(* the walk for a given byte offset *)
+(* the walk for a given byte offset: the RAW selection, before the name filter *)
 Definition get_func_ast_at (off : N) (root : node) : ast_result :=
   match w_d (visit off root w0) with
   | None => AstNone
   | Some (p, d) => AstFound p d
   end.
 
+(* ---- matchFuncDecl ---- *)
+(* strings.ReplaceAll(f, "[...]", ""): non-overlapping occurrences, left to
+   right; skip = bytes of the current occurrence still to drop *)
+Fixpoint strip_aux (s : bytes) (skip : nat) : bytes :=
+  match s with
+  | [] => []
+  | c :: s' =>
+      match skip with
+      | S k => strip_aux s' k
+      | O => if has_prefix s (s2b "[...]") then strip_aux s' 4 else c :: strip_aux s' 0
+      end
+  end.
+Definition strip_tparams (f : bytes) : bytes := strip_aux f 0.
+
+Definition DOT : N := 46.
+(* if i := strings.LastIndexByte(f, '.'); i != -1 { recv, f = f[:i], f[i+1:] } *)
+Definition split_last_dot (f : bytes) : bytes * bytes :=
+  match last_index_byte f DOT with
+  | Some i => (firstn i f, skipn (S i) f)
+  | None => ([], f)
+  end.
+Definition recv_part (f : bytes) : bytes := fst (split_last_dot (strip_tparams f)).
+Definition last_component (f : bytes) : bytes := snd (split_last_dot (strip_tparams f)).
+
+Definition OPEN_STAR : bytes := [40; 42]%N.   (* an opening parenthesis followed by a star *)
+Definition CLOSE : bytes := [41]%N.           (* a closing parenthesis *)
+
+(* recv[2 : len(recv)-1]; evaluated only when recv starts with OPEN_STAR and ends
+   with ")", so 2 <= len(recv)-1 (SourceProofs.peel_in_range): no slice panic *)
+Definition peel_ptr (recv : bytes) : bytes := firstn (List.length recv - 3) (skipn 2 recv).
+
+Definition unindex (t : texpr) : texpr := match t with TIndex x => x | _ => t end.
+
+Definition match_func_decl (d : funcdecl) (f : bytes) : bool :=
+  let '(recv, f1) := split_last_dot (strip_tparams f) in
+  if negb (beq f1 (fd_name d)) then false
+  else
+    match fd_recv d with
+    | None => beq recv []
+    | Some [r] =>
+        match (match f_type r with
+               | TStar x =>
+                   if has_prefix recv OPEN_STAR && has_suffix recv CLOSE
+                   then Some (peel_ptr recv, x) else None
+               | t => Some (recv, t)
+               end) with
+        | None => false
+        | Some (recv', t) =>
+            match unindex t with
+            | TIdent nm => beq nm recv'
+            | _ => false
+            end
+        end
+    | Some _ => false
+    end.
+
 (* l is the line of the traceback, a non-negative number (it is read with
-   atou); `len(p.lineToByteOffset) <= l` is exactly nth_error = None *)
-Definition get_func_ast (offsets : list N) (root : node) (l : nat) : ast_result :=
+   atou); `len(p.lineToByteOffset) <= l` is exactly nth_error = None.
+   f is the frame's function name without the package (Call.Func.Name). *)
+Definition get_func_ast (offsets : list N) (root : node) (l : nat) (f : bytes) : ast_result :=
   match nth_error offsets l with
   | None => AstErr
-  | Some off => get_func_ast_at off root
+  | Some off =>
+      match get_func_ast_at off root with
+      | AstFound p d => if match_func_decl d f then AstFound p d else AstNone
+      | r => r
+      end
   end.
 
 (* ---- name ---- *)
@@ -152,7 +217,7 @@ Definition field_to_type (t : texpr) : bytes * bool :=
   | TStar x => (s2b "*" ++ type_name x, false)
   | TMap k v => (s2b "map[" ++ type_name k ++ s2b "]" ++ type_name v, false)
   | TChan v => (s2b "chan " ++ type_name v, false)
-  | TBasicLit _ | TOther => (s2b "<unknown>", false)
+  | TBasicLit _ | TIndex _ | TOther => (s2b "<unknown>", false)
   end.
 
 (* ---- extractArgumentsType ---- *)
@@ -162,12 +227,13 @@ Definition is_ellipsis (t : texpr) : bool := match t with TEllipsis _ => true | 
 (* mult := len(arg.Names); if mult == 0 { mult = 1 } *)
 Definition mult (f : field) : nat := match f_names f with O => 1 | n => n end.
 
-(* the receiver part: `fields`, or the explicit panic *)
-Definition recv_fields (d : funcdecl) : GoResult (list field) :=
+(* the receiver part: `fields`; None = the early `return nil, false` for a
+   receiver list that does not have exactly one field *)
+Definition recv_fields (d : funcdecl) : option (list field) :=
   match fd_recv d with
-  | None => Ok []
-  | Some [r] => Ok (if is_star (f_type r) then [r] else [])
-  | Some _ => Panic "Expect only one receiver; please fix panicparse's code"
+  | None => Some []
+  | Some [r] => Some (if is_star (f_type r) then [r] else [])
+  | Some _ => None
   end.
 
 (* the loop: ellipsis is overwritten by every field, types grows by mult copies *)
@@ -179,22 +245,26 @@ Fixpoint args_loop (fs : list field) (types : list bytes) (ell : bool) : list by
       args_loop fs' (types ++ repeat t (mult f)) e
   end.
 
-Definition extract_arguments_type (d : funcdecl) : GoResult (list bytes * bool) :=
-  fields <- recv_fields d ;;
-  Ok (args_loop (fields ++ fd_params d) [] false).
+Definition extract_arguments_type (d : funcdecl) : list bytes * bool :=
+  match recv_fields d with
+  | None => ([], false)
+  | Some fields => args_loop (fields ++ fd_params d) [] false
+  end.
 
-(* ---- getFuncAST then extractArgumentsType (augmentGoroutine, :46-:53 and :280) ---- *)
+(* ---- getFuncAST then extractArgumentsType (augmentGoroutine / augmentCall) ---- *)
 Inductive src_result :=
 | SrcErr
 | SrcNone
 | SrcTypes (pos : N) (nm : bytes) (types : list bytes) (ell : bool).
 
-Definition source_types (offsets : list N) (root : node) (l : nat) : GoResult src_result :=
-  match get_func_ast offsets root l with
+(* GoResult is kept for the interface of the driver and of the theorems: there
+   is no partial operation left (SourceProofs.source_total) *)
+Definition source_types (offsets : list N) (root : node) (l : nat) (f : bytes) : GoResult src_result :=
+  match get_func_ast offsets root l f with
   | AstErr => Ok SrcErr
   | AstNone => Ok SrcNone
   | AstFound p d =>
-      '(types, ell) <- extract_arguments_type d ;;
+      let '(types, ell) := extract_arguments_type d in
       Ok (SrcTypes p (fd_name d) types ell)
   end.
 
